@@ -169,6 +169,62 @@ def run_config(chk, facts, cfg):
         chk.ob("C12-a", f"HintingInstance.{name}: re-derived before every Ok of reconfigure()", ok, key=f"{HGI}|{name}",
                file=hr.file, line=hr.lo, fn=hr.path, detail=f"field `{name}` keeps its value from the previous configuration")
     chk.floor("C12-a", "fields of HintingInstance", len(hfields), 4)
+    # C12-g: reconfigure never *reads* a field of the instance before it has written it on that path (what it reads then is
+    # the previous configuration).  Reads: loads of (*self).f in statements, shared borrows of it, and (*self).f / &(*self).f
+    # passed to calls other than the writers recognised above (clear / extend / mem::replace / mem::take).
+    chk.rule("C12-g", "T-ORDER: in HintingInstance::reconfigure every read of a field of *self is dominated by a write of that field "
+                      "(assignment, clear, mem::replace/take): no value of the previous configuration is consulted")
+    writes = {}
+    for wbb, k, f in hev:
+        if k in ("assign", "clear"):
+            writes.setdefault(f, []).append(wbb)
+    n_reads = 0
+    WRITER_CALLS = ("Vec::<T, A>::clear", "core::mem::replace", "core::mem::take")
+    reads = []
+    for bb, j, st in hr.stmts():
+        if st[0] != "A":
+            continue
+        rv = st[2]
+        cands = []
+        if rv[0] in ("use", "cast", "un", "repeat", "len", "disc"):
+            o = rv[1] if rv[0] in ("use", "repeat", "len", "disc") else rv[2]
+            if isinstance(o, list) and o and o[0] in ("c", "m"):
+                cands.append(o[1])
+            elif rv[0] in ("len", "disc") and isinstance(o, list):
+                cands.append(o)
+        elif rv[0] == "bin":
+            cands += [o[1] for o in (rv[2], rv[3]) if o[0] in ("c", "m")]
+        elif rv[0] == "ref" and rv[1] != "mut":
+            cands.append(rv[2])
+        elif rv[0] == "agg":
+            cands += [o[1] for o in rv[2] if o[0] in ("c", "m")]
+        for pl in cands:
+            f = self_field_of(hr, pl)
+            if f is not None:
+                reads.append((bb, j, f, st[3][0] if len(st) > 3 else hr.lo))
+    for bb, t in hr.calls():
+        if any(t.callee.endswith(w) for w in WRITER_CALLS) or any(t.callee.endswith(g) for g in GROW) or ("Extend" in t.callee and t.callee.endswith("::extend")):
+            continue
+        for a, aty in zip(t.args, t.d.get("atys") or []):
+            if a[0] not in ("c", "m"):
+                continue
+            f = self_field_of(hr, a)
+            if f is not None and not aty.startswith("&mut"):
+                reads.append((bb, 10 ** 6, f, t.line))
+    # stores in the same block before the read count as well: compare statement order inside a block
+    store_pos = {}
+    for bb, j, st in hr.stmts():
+        if st[0] == "A" and st[1][0] == 1 and len(st[1][1]) == 2 and st[1][1][0] == "*" and st[1][1][1][0] == "f":
+            store_pos.setdefault((bb, st[1][1][1][2]), []).append(j)
+    for bb, j, f, line in reads:
+        n_reads += 1
+        ok = any(w != bb and hr.dominates(w, bb) for w in writes.get(f, [])) or any(jj < j for jj in store_pos.get((bb, f), []))
+        # a writer *call* (clear / replace) ends its block: a read in a later block is covered by dominance above
+        chk.ob("C12-g", f"read of HintingInstance.{f} at line {line} follows a write of it", ok, key=f"{HGI}|read-before-write|{f}",
+               file=hr.file, line=line, fn=hr.path,
+               detail=f"`self.{f}` is read before this call to reconfigure() has written it: the value comes from the previous "
+                      f"configuration, so a reused instance behaves differently from a fresh one")
+    chk.floor("C12-g", "reads of instance fields in reconfigure", n_reads, 4)
     # kind is None on every Err exit: it is taken (mem::replace .. None) before the first fallible step and only stored after
     # the fallible step of each arm
     kind_stores = [(bb, j, st) for bb, j, st in hr.stmts() if st[0] == "A" and st[1][0] == 1 and len(st[1][1]) == 2 and st[1][1][1][0] == "f" and st[1][1][1][2] == "kind"]
